@@ -232,7 +232,7 @@ fn heavy_tf(rng: &mut Rng) -> usize {
 pub fn gen_doc(rng: &mut Rng, id: String, vocab: usize, dense: bool) -> Value {
   let mut body: Vec<&str> = Vec::new();
   for w in 0..vocab {
-    let present = if dense { w < 2 && rng.chance(9, 10) || rng.chance(1, 4) } else { rng.chance(2, 5) };
+    let present = if dense { w < 2 && rng.chance(9, 10) || rng.chance(1, 4) } else { rng.chance(3, 5) };
     if present {
       for _ in 0..heavy_tf(rng) {
         body.push(WORDS[w]);
@@ -288,7 +288,7 @@ fn term_q(rng: &mut Rng, w: &str, boosted: bool) -> Value {
 fn plain_q(rng: &mut Rng, vocab: usize, boosted: bool, dis_max: bool) -> Value {
   let mut ws: Vec<&str> = WORDS[..vocab].to_vec();
   rng.shuffle(&mut ws);
-  let n = (2 + rng.below(2)).min(ws.len());
+  let n = (if rng.chance(1, 6) { 1 } else { 2 + rng.below(2) }).min(ws.len());
   if dis_max {
     let kids: Vec<Value> = ws[..n].iter().map(|w| term_q(rng, w, true)).collect();
     let tie = *rng.pick(&[0.0, 0.3, 1.0]);
@@ -401,7 +401,7 @@ impl Prop for C09 {
     "C09"
   }
   fn rule(&self) -> &'static str {
-    "case = (1-3 segments of random documents over a 3-8 word vocabulary with heavy-tailed term frequencies, optional deletes, one scored query of kind plain|boosted|dis_max|function_score|script_score|rank_feature, limit 1..50, bmw_block_size 1..300 or default); size classes tiny (6-40 docs, block size 1-3, limit 1-5), medium (60-250 docs), long (posting lists of 400-1200 entries); every case runs execution=bm25, wand and bmw on one reader; non-trivial = some segment has more accepted candidates than limit+1 (the heap fills and pruning decisions are taken); distinct = distinct case JSON"
+    "case = (1-3 segments of random documents over a 3-8 word vocabulary with heavy-tailed term frequencies, optional deletes, one scored query of kind plain|boosted|dis_max|function_score|script_score|rank_feature, limit 1..50, bmw_block_size 1..300 or default); size classes tiny (8-60 docs, block size 1-3, limit 1-5), medium (60-250 docs), long (posting lists of 400-1200 entries); every case runs execution=bm25, wand and bmw on one reader; non-trivial = some segment has more accepted candidates than limit+1 (the heap fills and pruning decisions are taken); distinct = distinct case JSON"
   }
   fn count(&self, tier: Tier) -> usize {
     tier.pick(300, 30000)
@@ -416,7 +416,7 @@ impl Prop for C09 {
     let (nseg, ndocs, vocab) = match class {
       "long" => (1 + rng.below(2), 400 + rng.below(801), 4 + rng.below(3)),
       "medium" => (1 + rng.below(3), 60 + rng.below(190), 4 + rng.below(5)),
-      _ => (1 + rng.below(2), 6 + rng.below(35), 3 + rng.below(3)),
+      _ => (1 + rng.below(2), 8 + rng.below(53), 3 + rng.below(3)),
     };
     let mut segments = Vec::new();
     let mut ids = Vec::new();
@@ -447,7 +447,7 @@ impl Prop for C09 {
       k => hook_q(rng, k, vocab),
     };
     let (limit, bs) = match class {
-      "tiny" => (1 + rng.below(5), json!(1 + rng.below(3))),
+      "tiny" => (*rng.pick(&[1, 1, 2, 2, 3, 4, 5]), json!(1 + rng.below(3))),
       _ => (1 + rng.below(50), if rng.chance(1, 6) { Value::Null } else { json!(1 + rng.below(300)) }),
     };
     json!({"class": class, "kind": kind, "segments": segments, "deletes": deletes, "query": query, "limit": limit, "bmw_block_size": bs})
